@@ -44,6 +44,9 @@ def run(ctx, res):
     else:
         ex = R.exhaustive_cases(3, 4, hints=hints) + R.exhaustive_cases(4, 2)[len(R.exhaustive_cases(3, 2)):]
     rnd = [R.gen_case(rng) for _ in range(ctx.n(3200, 30000))]
+    rp = R.replay_cases(ctx)
+    if rp:                      # --replay: only the recorded case(s), re-run on the current implementation
+        ex, rnd = [], rp
     # optimality concerns contests for which an audit is possible: of the exhaustive stream keep the non-empty outputs
     # (emptiness is C04's equation `output = [] <-> possible = false`, checked there on the whole stream)
     ex = [c for c in R.run_cases(ex) if c["impl"]["out"] is None or c["impl"]["out"]]
